@@ -104,6 +104,17 @@ finding("C03-take-before-group-loses-sort", "C03", ["C01"],
  "`from t1 | select {id, a} | sort {-id} | take 1 | group {a} (derive {c0 = id + 1})` compiles to `SELECT a, id, id + 1 AS c0 FROM t1 LIMIT 1`: the ORDER BY that defines which row `take 1` keeps is dropped.",
  {"source": "from t1 | select {id, a} | sort {-id} | take 1 | group {a} (derive {c0 = id + 1})", "arity": 3, "rows": [[I(2),I(3),I(4)]]})
 
+finding("C03-dropped-sort-key-join", "C03", ["C01", "C07"],
+ "a select drops a column the sort in effect refers to, then a join and a take follow (hazard dropped_key_join)",
+ "`from t1 | select {id, a, b} | sort {a} | select {c0 = id + 1} | join r0 = (from t2 | select {c2 = id + 1}) (true) | take 1..1` emits `... table_1.a AS _expr_0 FROM table_1 INNER JOIN table_0 ON true ORDER BY table_1._expr_0 LIMIT 1`: the ORDER BY names the alias as if it were a column of table_1 (no such column).",
+ {"source": "from t1 | select {id, a, b} | sort {a, id} | select {c0 = id + 1} | join r0 = (from t2 | filter id == 1 | select {c2 = id + 1}) (true) | take 1..2", "arity": 2,
+  "rows": [[I(2),I(2)],[I(3),I(2)]], "ordered": True})
+
+finding("C07-wildcard-let-derive-name", "C07", ["C01", "C09"],
+ "a let-table / CTE whose frame is a wildcard (`from t` not projected) containing a derive followed by a filter, referenced from outside by the derived name (hazard wild_let)",
+ "`let l0 = (from t1 | derive {c0 = id + 1} | filter b > 0)  from l0 | group {a} (aggregate {s = sum c0})` emits `WITH table_0 AS (SELECT *, id + 1 AS _expr_0 FROM t1), l0 AS (SELECT * FROM table_0 WHERE b > 0) SELECT a, COALESCE(SUM(c0), 0) ... FROM l0`: the derived column is named _expr_0 inside the CTE but referred to as c0 outside (no such column).",
+ {"source": "let l0 = (from t1 | derive {c0 = id + 1} | filter b > 0)\nfrom l0 | group {a} (aggregate {s = sum c0})", "arity": 2, "rows": [[I(1),I(5)]]})
+
 k = json.load(open(os.path.join(V, "known_findings.json")))
 keep = [f for f in k["findings"] if f["id"] not in {x["id"] for x in FINDINGS}]
 k["findings"] = keep + FINDINGS
